@@ -31,6 +31,10 @@ ENV = 'PLAYBACK_INTERCEPTED_FILE_SIZE_LIMIT'
 PROC_FILE = '/proc/version'
 
 
+def flip(data):
+    return bytes(bytearray(b ^ 0x5a for b in bytearray(data)))
+
+
 def check_file_case(ctx, case):
     from playback.tape_recorder import TapeRecorder
     from playback.interception.files.input_file_interception import InputInterceptionFileDataHandler
@@ -113,6 +117,17 @@ def check_file_case(ctx, case):
                 self.publish(path=pout)
             else:
                 self.publish(pout)
+            if case.get('republish'):
+                # the same path is sent again after being rewritten with other bytes of the same length, within the
+                # granularity of the file system's time stamps (same size, same modification time)
+                before = os.stat(pout)
+                with open(pout, 'wb') as f:
+                    f.write(flip(data[::-1]))
+                os.utime(pout, ns=(before.st_atime_ns, before.st_mtime_ns))
+                if kw:
+                    self.publish(path=pout)
+                else:
+                    self.publish(pout)
             return len(data)
 
         ns['execute'] = rec.operation()(execute)
@@ -171,12 +186,20 @@ def check_file_case(ctx, case):
         helper = OutputInterceptionFileDataHandler(0, 'path')
         ro = [o for o in pb.recorded_outputs if 'publish' in o.key]
         po = [o for o in pb.playback_outputs if 'publish' in o.key]
-        if len(ro) != 1 or len(po) != 1:
-            raise Violation('expected one publish output on each side, got %d / %d' % (len(ro), len(po)), 'outputs')
+        n_pub = 2 if case.get('republish') else 1
+        if len(ro) != n_pub or len(po) != n_pub:
+            raise Violation('expected %d publish output(s) on each side, got %d / %d' % (n_pub, len(ro), len(po)), 'outputs')
+        ro.sort(key=lambda o: o.key)
+        po.sort(key=lambda o: o.key)
         exp_rec_out = placeholder if over else content[::-1]
         rin = exp_in[::-1]
         exp_pb_out = placeholder if len(rin) > limit_bytes else rin
-        for what, o, want, path in (('recorded', ro[0], exp_rec_out, o1), ('replayed', po[0], exp_pb_out, o2)):
+        checks = [('recorded', ro[0], exp_rec_out, o1), ('replayed', po[0], exp_pb_out, o2)]
+        if n_pub == 2:
+            checks += [('recorded (second send of the path)', ro[1], placeholder if over else flip(content[::-1]), o1),
+                       ('replayed (second send of the path)', po[1],
+                        placeholder if len(rin) > limit_bytes else flip(rin), o2)]
+        for what, o, want, path in checks:
             holder = helper.restore_output_from_recording(o.value)
             # restoring is a read: doing it again gives the same holder (an extractor runs more than once per output)
             holder_again = helper.restore_output_from_recording(o.value)
@@ -193,7 +216,7 @@ def check_file_case(ctx, case):
             if holder.output_file_path != path:
                 raise Violation('%s output holder path %r, the call named %r' % (what, holder.output_file_path, path),
                                 'output-path')
-            dst = os.path.join(work, 'restored-' + what)
+            dst = os.path.join(work, 'restored-' + what.split(' ')[0])
             holder.to_file(dst)
             with open(dst, 'rb') as f:
                 if f.read() != want:
@@ -212,7 +235,8 @@ def check_file_case(ctx, case):
         'over-limit' if over else 'within-limit', 'explicit+env' if case.get('env_also') is not None else
         'env-limit' if case.get('env_limit') is not None else 'default-limit' if case.get('default_limit') else
         'explicit-limit', 'size:>1MB' if len(content) > 2 ** 20 else 'size:<=1MB',
-        'size:near-limit' if near else 'size:other', 'source:procfs' if procfs else 'source:regular', 'preexisting:%s' % case.get('preexisting'), 'empty' if not content else 'nonempty'))
+        'size:near-limit' if near else 'size:other', 'source:procfs' if procfs else 'source:regular', 'preexisting:%s' % case.get('preexisting'),
+        'path-sent-twice' if case.get('republish') else 'path-sent-once', 'empty' if not content else 'nonempty'))
 
 
 PLACEHOLDER_HEX = binascii.hexlify(b'above interception limit').decode()
@@ -247,6 +271,7 @@ def cases(draw):
         case['limit_bytes'] = limit
     if 'limit_bytes' in case:
         case['env_also'] = draw(st.sampled_from([None, None, 0, 500, 1]))
+    case['republish'] = draw(st.sampled_from([False, False, True]))
     case['preexisting'] = draw(st.sampled_from([None, None, 'same-size', 'same-size', 'shorter', 'longer']))
     case['content'] = binascii.hexlify(content).decode()
     return case
